@@ -35,7 +35,7 @@ Proof. unfold upd. intros H. destruct (N.eqb_spec x h); [contradiction|reflexivi
 Section Mon.
 Variable env : opt_env.
 Variable mrs : Z * Z.
-Notation cluster := (oe_cluster env).
+Notation cluster := (ov_cluster env).
 Notation WP := (wp ost (ostep mrs) (ookc cluster)).
 
 Lemma wp_exec_other {A} st s h stm (k : oerr -> prog A) Q :
@@ -133,7 +133,7 @@ Definition to_restore (p : opt_plan) : list host := op_optimized p ++ op_malf p 
 Section Mon2.
 Variable env : opt_env.
 Variable mrs : Z * Z.
-Notation cluster := (oe_cluster env).
+Notation cluster := (ov_cluster env).
 Notation WP := (wp ost (ostep mrs) (ookc cluster)).
 
 Lemma wp_sync_node_options h st :
@@ -196,7 +196,7 @@ Lemma ac_stop_nodes (P : site -> call -> Prop) env l rs : (forall h, P 11195 (Sq
   allcalls P (stop_nodes env l rs).
 Proof.
   intros H1 H2. induction l as [|h rest IH]; cbn [stop_nodes]; [exact I|].
-  destruct (mem_host h (oe_cluster env)); [|exact IH].
+  destruct (mem_host h (ov_cluster env)); [|exact IH].
   apply allcalls_bind; [apply ac_set_settings; auto|]. intros [e|]; [exact I|exact IH].
 Qed.
 
@@ -240,14 +240,14 @@ Proof. reflexivity. Qed.
 Lemma classify_master env mrs en ns : ns_is_master ns = true -> classify env mrs en (Some ns) = OcMalf.
 Proof. intros H. unfold classify. destruct (opt_lag ns); [rewrite H|]; reflexivity. Qed.
 Lemma classify_converged env mrs en ns lag : ns_is_master ns = false -> opt_lag ns = Some lag ->
-  (lag < oe_low env \/ (en = false /\ lag < oe_high env)) -> oe_low env <= oe_high env ->
+  (lag < ov_low env \/ (en = false /\ lag < ov_high env)) -> ov_low env <= ov_high env ->
   classify env mrs en (Some ns) = OcOptimized.
 Proof.
   intros Hm Hl Hc Hlh. unfold classify. rewrite Hl, Hm.
   destruct Hc as [Hc|[-> Hc]].
-  - assert (lag <? oe_low env = true) as -> by (apply Z.ltb_lt; exact Hc).
-    assert (lag <? oe_high env = true) as -> by (apply Z.ltb_lt; lia). destruct en; reflexivity.
-  - assert (lag <? oe_high env = true) as -> by (apply Z.ltb_lt; exact Hc). reflexivity.
+  - assert (lag <? ov_low env = true) as -> by (apply Z.ltb_lt; exact Hc).
+    assert (lag <? ov_high env = true) as -> by (apply Z.ltb_lt; lia). destruct en; reflexivity.
+  - assert (lag <? ov_high env = true) as -> by (apply Z.ltb_lt; exact Hc). reflexivity.
 Qed.
 Lemma classify_disabled env mrs en ons : classify env mrs en ons = OcDisabled ->
   en = false /\ exists ns rs, ons = Some ns /\ ns_repl_settings ns = Some rs /\ rs_eqb rs mrs = true.
@@ -278,7 +278,7 @@ Proof. intros Hc. destruct c; cbn; try (apply in_or_app; right; left; reflexivit
 Lemma read_states_runs env mrs : forall hosts p0 tr o, runs (read_states env mrs hosts p0) tr o ->
   Forall (fun e => readcall (ev_call e)) tr /\
   forall p, o = Done (RdOk p) ->
-    plan_incl p0 p /\ forall h en, observed tr h en -> In h (class_list p (classify env mrs en (assoc h (oe_states env)))).
+    plan_incl p0 p /\ forall h en, observed tr h en -> In h (class_list p (classify env mrs en (assoc h (ov_states env)))).
 Proof.
   induction hosts as [|h rest IH]; intros p0 tr o H; cbn [read_states] in H.
   - cbn in H. destruct H as [-> ->]. split; [constructor|]. intros p E. inversion E; subst. split; [apply plan_incl_refl|].
@@ -287,11 +287,11 @@ Proof.
     assert (RC : readcall (ev_call e)) by (rewrite Ec; exact I).
     assert (FIN : forall (x : read_res), runs (Ret x) tr' o -> (forall p, x <> RdOk p) ->
               Forall (fun e0 => readcall (ev_call e0)) (e :: tr') /\ forall p, o = Done (RdOk p) -> plan_incl p0 p /\
-                forall h0 en, observed (e :: tr') h0 en -> In h0 (class_list p (classify env mrs en (assoc h0 (oe_states env))))).
+                forall h0 en, observed (e :: tr') h0 en -> In h0 (class_list p (classify env mrs en (assoc h0 (ov_states env))))).
     { intros x Hx Hne. cbn in Hx. destruct Hx as [-> ->]. split; [constructor; [exact RC|constructor]|]. intros p E. inversion E. exfalso. eapply Hne; eauto. }
     assert (SKIP : runs (read_states env mrs rest p0) tr' o -> (forall en, ev_resp e <> RVal (VOpt en)) ->
               Forall (fun e0 => readcall (ev_call e0)) (e :: tr') /\ forall p, o = Done (RdOk p) -> plan_incl p0 p /\
-                forall h0 en, observed (e :: tr') h0 en -> In h0 (class_list p (classify env mrs en (assoc h0 (oe_states env))))).
+                forall h0 en, observed (e :: tr') h0 en -> In h0 (class_list p (classify env mrs en (assoc h0 (ov_states env))))).
     { intros Hr Hne. destruct (IH _ _ _ Hr) as [F K]. split; [constructor; assumption|]. intros p E. destruct (K p E) as [K1 K2]. split; [exact K1|].
       intros h0 en (e0 & [<-|Hin] & C0 & R0); [exfalso; eapply Hne; eauto|]. apply K2. exists e0. auto. }
     destruct (ev_resp e) as [er| | | | | | | | | | |v| | |] eqn:Er; cbn [bind] in H;
@@ -300,17 +300,17 @@ Proof.
         try (match type of H with runs (Ret (RdErr ?x)) _ _ => apply (FIN (RdErr x)); [exact H|discriminate] end).
       apply SKIP; [exact H|]. intros en; discriminate.
     + (* RVal *) destruct v; cbn [bind] in H; try (apply (FIN (RdErr EOther)); [exact H|discriminate]).
-      assert (GOOD : forall c, c <> OcPanic -> classify env mrs enabled (assoc h (oe_states env)) = c ->
+      assert (GOOD : forall c, c <> OcPanic -> classify env mrs enabled (assoc h (ov_states env)) = c ->
                 runs (read_states env mrs rest (plan_add p0 h c)) tr' o ->
                 Forall (fun e0 => readcall (ev_call e0)) (e :: tr') /\ forall p, o = Done (RdOk p) -> plan_incl p0 p /\
-                  forall h0 en, observed (e :: tr') h0 en -> In h0 (class_list p (classify env mrs en (assoc h0 (oe_states env))))).
+                  forall h0 en, observed (e :: tr') h0 en -> In h0 (class_list p (classify env mrs en (assoc h0 (ov_states env))))).
       { intros c Hc Ecl Hr. destruct (IH _ _ _ Hr) as [F K]. split; [constructor; assumption|]. intros p E. destruct (K p E) as [K1 K2].
         split; [eapply plan_incl_trans; [apply plan_add_incl|exact K1]|].
         intros h0 en (e0 & [<-|Hin] & C0 & R0).
         - rewrite Ec in C0. inversion C0; subst h0. rewrite Er in R0. inversion R0; subst en. rewrite Ecl.
           apply (K1 c h). apply plan_add_in. exact Hc.
         - apply K2. exists e0. auto. }
-      destruct (classify env mrs enabled (assoc h (oe_states env))) eqn:Ecl.
+      destruct (classify env mrs enabled (assoc h (ov_states env))) eqn:Ecl.
       * apply (GOOD OcMalf); [discriminate|reflexivity|exact H].
       * apply (GOOD OcOptimized); [discriminate|reflexivity|exact H].
       * apply (GOOD OcOptimizing); [discriminate|reflexivity|exact H].
@@ -320,7 +320,7 @@ Qed.
 
 (* ---------------------------------------------------------------- the whole sync *)
 Definition plan_sound (env : opt_env) (mrs : Z * Z) (tr : trace) (p : opt_plan) : Prop :=
-  forall h en, observed tr h en -> In h (class_list p (classify env mrs en (assoc h (oe_states env)))).
+  forall h en, observed tr h en -> In h (class_list p (classify env mrs en (assoc h (ov_states env)))).
 
 Lemma observed_cons_other e tr h en : (forall p, ev_call e <> DcsGet p) -> observed (e :: tr) h en -> observed tr h en.
 Proof. intros Hne (e0 & [<-|Hin] & C & R); [exfalso; eapply Hne; eauto|exists e0; auto]. Qed.
@@ -345,8 +345,8 @@ Qed.
 
 (* where the sync learns the master's settings from: this iteration's health record, else the master itself *)
 Definition master_seen (env : opt_env) (tr : trace) (mrs : Z * Z) : Prop :=
-  (exists ns, assoc (oe_master env) (oe_states env) = Some ns /\ ns_repl_settings ns = Some mrs) \/
-  (exists e tr', tr = e :: tr' /\ ev_call e = Sql (oe_master env) SReplSettings /\ ev_resp e = RZ2 (fst mrs) (snd mrs)).
+  (exists ns, assoc (ov_master env) (ov_states env) = Some ns /\ ns_repl_settings ns = Some mrs) \/
+  (exists e tr', tr = e :: tr' /\ ev_call e = Sql (ov_master env) SReplSettings /\ ev_resp e = RZ2 (fst mrs) (snd mrs)).
 
 Theorem opt_sync_runs env tr o : runs (opt_sync env) tr o ->
   (Forall (fun e => readcall (ev_call e)) tr /\ o <> Done None) \/
@@ -354,11 +354,11 @@ Theorem opt_sync_runs env tr o : runs (opt_sync env) tr o ->
     plan_sound env mrs tr1 p /\ runs (sync_act env mrs p) tr2 o.
 Proof.
   unfold opt_sync, master_settings.
-  destruct (match assoc (oe_master env) (oe_states env) with Some ns => ns_repl_settings ns | None => None end) as [rs|] eqn:Ev.
+  destruct (match assoc (ov_master env) (ov_states env) with Some ns => ns_repl_settings ns | None => None end) as [rs|] eqn:Ev.
   - cbn [bind snd fst]. intros H. destruct (sync_with_runs _ _ _ _ H) as [L|(p & t1 & t2 & E & F & P & R)]; [left; exact L|].
     right. exists rs, p, t1, t2. split; [exact E|]. split; [exact F|]. split; [|split; assumption].
-    left. destruct (assoc (oe_master env) (oe_states env)) as [ns|]; [|discriminate]. exists ns. auto.
-  - destruct (mem_host (oe_master env) (oe_cluster env)).
+    left. destruct (assoc (ov_master env) (ov_states env)) as [ns|]; [|discriminate]. exists ns. auto.
+  - destruct (mem_host (ov_master env) (ov_cluster env)).
     + unfold repl_settings. cbn [bind runs]. destruct tr as [|e tr']; [intros []|]. intros (_ & Ec & H).
       assert (RC : readcall (ev_call e)) by (rewrite Ec; exact I).
       destruct (ev_resp e) as [er| | | | | | | |a b| | | | | |] eqn:Er; cbn [bind snd fst] in H;
@@ -410,7 +410,7 @@ Proof. destruct c; try (intros; exact I). destruct s; try (intros; exact I); int
 (* T1: in every run of Sync a registered cluster host is deregistered only when RESTORED *)
 Theorem sync_drops_only_restored env tr o : runs (opt_sync env) tr o ->
   exists mrs, (Forall (fun e => readcall (ev_call e)) tr \/ master_seen env tr mrs) /\
-              trace_ok ost (ostep mrs) (ookc (oe_cluster env)) ost0 tr.
+              trace_ok ost (ostep mrs) (ookc (ov_cluster env)) ost0 tr.
 Proof.
   intros H. destruct (opt_sync_runs _ _ _ H) as [[F _]|(mrs & p & t1 & t2 & -> & F & M & P & R)].
   - exists (0, 0). split; [left; exact F|]. rewrite <- (app_nil_r tr). apply trace_ok_neutral_app; [|exact I].
@@ -425,8 +425,8 @@ Qed.
 Theorem sync_success_restores env tr : runs (opt_sync env) tr (Done None) ->
   exists mrs k, master_seen env tr mrs /\
     forall h en, observed tr h en ->
-      (classify env mrs en (assoc h (oe_states env)) = OcMalf \/ classify env mrs en (assoc h (oe_states env)) = OcOptimized) ->
-      mem_host h (oe_cluster env) = true -> Some h <> k ->
+      (classify env mrs en (assoc h (ov_states env)) = OcMalf \/ classify env mrs en (assoc h (ov_states env)) = OcOptimized) ->
+      mem_host h (ov_cluster env) = true -> Some h <> k ->
       o_rest (fold_steps ost (ostep mrs) ost0 tr) h = true.
 Proof.
   intros H. destruct (opt_sync_runs _ _ _ H) as [[_ F]|(mrs & p & t1 & t2 & -> & F & M & P & R)]; [contradiction|].
@@ -437,7 +437,7 @@ Proof.
     rewrite Forall_forall in FA. specialize (FA e Hin). destruct FA as [_ NG]. rewrite C in NG. exact NG. }
   rewrite fold_steps_app.
   assert (fold_steps ost (ostep mrs) ost0 t1 = ost0) as ->.
-  { apply (fold_steps_neutral ost (ostep mrs) (ookc (oe_cluster env))). eapply Forall_impl; [|exact F]. intros e He. apply readcall_neutral. exact He. }
+  { apply (fold_steps_neutral ost (ostep mrs) (ookc (ov_cluster env))). eapply Forall_impl; [|exact F]. intros e He. apply readcall_neutral. exact He. }
   pose proof (proj2 (wp_sound _ _ _ _ _ _ (wp_sync_act env mrs p ost0) _ _ R)) as Q. cbn beta iota in Q.
   apply Q; auto. unfold to_restore. specialize (P h en Ho1).
   destruct Hc as [Hc|Hc]; rewrite Hc in P; cbn [class_list] in P; apply in_or_app; [right; apply in_or_app; left|left]; exact P.
@@ -525,7 +525,7 @@ Qed.
 Theorem sync_success_deregisters env tr : runs (opt_sync env) tr (Done None) ->
   exists mrs, master_seen env tr mrs /\
     forall h en, observed tr h en ->
-      (classify env mrs en (assoc h (oe_states env)) = OcMalf \/ classify env mrs en (assoc h (oe_states env)) = OcOptimized) ->
+      (classify env mrs en (assoc h (ov_states env)) = OcMalf \/ classify env mrs en (assoc h (ov_states env)) = OcOptimized) ->
       exists e, In e tr /\ ev_call e = DcsDelete (POptNode h) /\ (ev_resp e = ROk \/ ev_resp e = RErr ENotFound).
 Proof.
   intros H. destruct (opt_sync_runs _ _ _ H) as [[_ F]|(mrs & p & t1 & t2 & -> & F & M & P & R)]; [contradiction|].
@@ -550,7 +550,7 @@ Qed.
 
 (* ---------------------------------------------------------------- controller: Disable / DisableAll *)
 Definition env_of_cluster (cluster : list host) : opt_env :=
-  {| oe_master := 0%N; oe_states := []; oe_cluster := cluster; oe_low := 0; oe_high := 0 |}.
+  {| ov_master := 0%N; ov_states := []; ov_cluster := cluster; ov_low := 0; ov_high := 0 |}.
 
 Lemma wp_opt_disable cluster rs h st :
   wp ost (ostep rs) (ookc cluster) st (opt_disable h rs)
@@ -661,7 +661,7 @@ Theorem switchover_disables_first cfg env sw mem tr o : runs (perform_switchover
   exists active tr1 tr2, tr = tr1 ++ tr2 /\ incl active (se_active env) /\
     Forall (fun e => disable_call (ev_call e)) tr1 /\
     (runs (opt_disable_all (se_old_master env) active) tr1 (Done None) \/
-     (tr2 = [] /\ exists o1, runs (opt_disable_all (se_old_master env) active) tr1 o1 /\ o1 <> Done None)).
+     (tr2 = [] /\ exists o1, runs (opt_disable_all_k (mem_host (se_old_master env) (map fst (se_all_hosts env))) (se_old_master env) active) tr1 o1 /\ o1 <> Done None)).
 Proof.
   unfold perform_switchover.
   destruct (match sw_to sw with Some t => negb (mem_host t (se_active env)) | None => false end); [cbn; intros [-> _]; left; reflexivity|].
@@ -672,12 +672,19 @@ Proof.
   assert (Hincl : incl active (se_active env)).
   { subst active. destruct (sw_cause_ sw); try apply incl_refl. destruct (sw_from sw); try apply incl_refl.
     destruct (N.eqb _ _); try apply incl_refl. unfold filter_out. intros x Hx. apply filter_In in Hx. apply Hx. }
-  intros H. right. destruct (runs_bind_inv _ _ _ _ H) as [(t1 & t2 & a & R1 & R2 & ->)|(s & R1 & ->)].
+  intros H. right.
+  assert (AC : forall k, allcalls (fun _ c => disable_call c) (opt_disable_all_k k (se_old_master env) active)).
+  { intros k. unfold opt_disable_all_k. destruct k; [apply disable_all_calls|]. unfold dcs_children_. cbn [bind allcalls]. split; [exact I|]. intros r; destruct r; exact I. }
+  destruct (runs_bind_inv _ _ _ _ H) as [(t1 & t2 & a & R1 & R2 & ->)|(s & R1 & ->)].
   - exists active, t1, t2. split; [reflexivity|]. split; [exact Hincl|].
-    split; [exact (allcalls_sound _ _ (disable_all_calls _ _) _ _ R1)|].
-    destruct a as [x|]; [|left; exact R1]. right. cbn in R2. destruct R2 as [-> _]. split; [reflexivity|]. exists (Done (Some x)). split; [exact R1|discriminate].
+    split; [exact (allcalls_sound _ _ (AC _) _ _ R1)|].
+    destruct a as [x|].
+    + right. cbn in R2. destruct R2 as [-> _]. split; [reflexivity|]. exists (Done (Some x)). split; [exact R1|discriminate].
+    + left. unfold opt_disable_all_k in R1. destruct (mem_host _ _); [exact R1|].
+      exfalso. unfold dcs_children_ in R1. cbn [bind runs] in R1. destruct t1 as [|e t1']; [destruct R1|]. destruct R1 as (_ & _ & R1).
+      destruct (ev_resp e); cbn in R1; destruct R1 as [_ R1]; discriminate R1.
   - exists active, tr, []. split; [rewrite app_nil_r; reflexivity|]. split; [exact Hincl|].
-    split; [exact (allcalls_sound _ _ (disable_all_calls _ _) _ _ R1)|]. right. split; [reflexivity|]. exists (Panicked s). split; [exact R1|discriminate].
+    split; [exact (allcalls_sound _ _ (AC _) _ _ R1)|]. right. split; [reflexivity|]. exists (Panicked s). split; [exact R1|discriminate].
 Qed.
 
 (* ---------------------------------------------------------------- the pre-switchover speed-up phase: REFUTED
@@ -693,7 +700,7 @@ Definition w_ns (master : bool) (lag : option Z) : node_state :=
                                                    rs_executed := []; rs_retrieved := []; rs_file := 1%N; rs_pos := 0 |};
      ns_semi := None; ns_repl_settings := Some (1, 1); ns_check_at := 0 |}.
 Definition w_env : opt_env :=
-  {| oe_master := 1%N; oe_states := [(1%N, w_ns true None); (2%N, w_ns false (Some 300))]; oe_cluster := [1%N; 2%N]; oe_low := 60; oe_high := 120 |}.
+  {| ov_master := 1%N; ov_states := [(1%N, w_ns true None); (2%N, w_ns false (Some 300))]; ov_cluster := [1%N; 2%N]; ov_low := 60; ov_high := 120 |}.
 Definition w_sw : switch_rec :=
   {| sw_from := None; sw_to := Some 2%N; sw_cause_ := CauseManual; sw_kind := SwSwitchover; sw_master_transition := true;
      sw_run_count := 0; sw_initiated_at := 0; sw_started := true; sw_started_at := 0; sw_result := None |}.
